@@ -436,6 +436,49 @@ def check(spec, ctx):
             ctx.fail("geometries whose coordinates were re-assigned after a first rasterisation give other cells than freshly built ones", spec, got_a.tolist(), fresh.tolist(), kind="stale_after_assignment")
 
 
+@st.composite
+def decimal_axis_case(draw):
+    """Templates as the library's own helpers build them (regular axes with a 'step' attribute, decimal steps, up to 130 bins) and
+    boxes whose start and end are exactly two of the axis coordinates."""
+    step = draw(st.sampled_from([0.01, 0.1, 0.3, 1 / 44100, 0.05, 0.7, 1 / 3]))
+    n = draw(st.sampled_from([60, 100, 120, 130, 180]))
+    k = draw(st.integers(0, n - 2))
+    j = draw(st.integers(k + 1, n - 1))
+    return {"step": step, "n": n, "k": k, "j": j, "order": draw(st.sampled_from(["tf", "ft"])), "start": draw(st.sampled_from([0.0, 0.0, 1.0])), "all_touched": draw(st.booleans())}
+
+
+def check_decimal_axis(spec, ctx):
+    import xarray as xr
+    from soundevent import arrays, data
+    from soundevent.geometry import rasterize
+
+    step, n, k, j = spec["step"], spec["n"], spec["k"], spec["j"]
+    if not (0 <= k < j < n <= 400) or step <= 0:
+        raise ValueError("malformed spec")
+    tdim = arrays.create_time_range(start_time=spec["start"], end_time=spec["start"] + n * step, step=step)
+    fdim = arrays.create_frequency_range(low_freq=0.0, high_freq=3000.0, step=1000.0)
+    tc = np.asarray(tdim.data, dtype=float)
+    if tc.size <= j:
+        raise ValueError("malformed spec: axis shorter than expected")
+    arr = xr.DataArray(np.zeros((tc.size, fdim.size)), dims=("time", "frequency"), coords={"time": tdim, "frequency": fdim})
+    if spec["order"] == "ft":
+        arr = arr.transpose("frequency", "time")
+    box = data.BoundingBox(coordinates=[float(tc[k]), 0.0, float(tc[j]), 2999.0])
+    ctx.case(spec, nontrivial=True, labels=[f"step={step:.4g}", spec["order"]], out={"k": k, "j": j})
+    res = ctx.call(spec, "rasterize(box between two axis coordinates, helper-built template)", rasterize, [box], arr, all_touched=spec["all_touched"])
+    got = res.transpose("time", "frequency").values
+    marked = sorted(set(np.nonzero(got.any(axis=1))[0].tolist()))
+    want = list(range(k, j))
+    if marked != want:
+        ctx.fail(f"box from time coordinate {k} ({tc[k]!r}) to coordinate {j} ({tc[j]!r}) marks time bins {marked[:3]}..{marked[-3:] if marked else []} ({len(marked)}), the bins from the one containing its start to the one containing its end (exclusive) are {k}..{j - 1}", spec, marked, want, kind="bins")
+    # the same axis without attributes (plain numpy coordinates) gives the same raster
+    plain = xr.DataArray(np.zeros((tc.size, fdim.size)), dims=("time", "frequency"), coords={"time": tc.copy(), "frequency": np.asarray(fdim.data, dtype=float)})
+    got_p = rasterize([box], plain, all_touched=spec["all_touched"]).transpose("time", "frequency").values
+    if not np.array_equal(got_p, got):
+        ctx.fail("a helper-built template (coordinates with attributes) and a plain template with the same coordinates are rasterised differently", spec, None, None, kind="attrs_matter")
+
+
 SUBS = [
+    Sub("decimal_axes", check_decimal_axis, strategy=decimal_axis_case, quick=1500, thorough=40000),
     Sub("raster_reference", check, strategy=case, quick=5000, thorough=150000, min_nontrivial=0.3),
 ]
